@@ -245,6 +245,13 @@ impl MT101 {
             });
         }
 
+        // Sequence B is mandatory: a message without it is rejected
+        if transactions.is_empty() {
+            return Err(crate::errors::ParseError::InvalidFormat {
+                message: "MT101: At least one transaction of sequence B (field 21) is required".to_string(),
+            });
+        }
+
         // Verify all content is consumed
         verify_parser_complete(&parser)?;
 
